@@ -172,6 +172,14 @@ def jFile (f : File) : Json :=
 def jResult (r : Result) : Json :=
   jObj [("status", jStr (if r.status = .ok then "ok" else "error")), ("files", jList jFile r.files)]
 
+/-- the image `load` returns for a path (or how it fails) -/
+def jLoadFull : Except Fail (Loader × Laser) → Json
+  | .ok x =>
+    jObj [("loader", jLoader x.1), ("elements", jList jStr x.2.elements), ("shape", jList jNat [x.2.data.h, x.2.data.w]),
+          ("data", jList (fun e => jGrid (x.2.field e)) x.2.elements), ("config", jCfg x.2.config)]
+  | .error .usage => jObj [("fail", jStr "usage")]
+  | .error .crash => jObj [("fail", jStr "crash")]
+
 def jLoad : Except Fail (Loader × Laser) → Json
   | .ok x => jLoader x.1
   | .error .usage => jObj [("fail", jStr "usage")]
@@ -213,7 +221,9 @@ def handle (op : String) (req : Json) : R Json := do
                          output := output, isDir := isDir, defaults := defaults }
     pure (jObj [("model", jResult (mainRun c)), ("spec", jResult (specMain c)),
                 ("model_loaders", jList (fun s => jLoad (loadMech defaults s)) srcs),
-                ("spec_loaders", jList (fun s => jLoad (loadSpec defaults s)) srcs)])
+                ("spec_loaders", jList (fun s => jLoad (loadSpec defaults s)) srcs),
+                ("model_loads", jList (fun s => jLoadFull (loadMech defaults s)) srcs),
+                ("spec_loads", jList (fun s => jLoadFull (loadSpec defaults s)) srcs)])
   | _ => throw s!"unknown op {op}"
 
 end PewDriver.C20
